@@ -216,11 +216,25 @@ def evaluate(case, ctx):
         ctx.label('theta0>=90')
     ctx.nt(theta0 >= 30)
     tau = tolerance(key, case['P'], float(case['dt']), 10.0**float(case['sigma_exp']))
-    try:
-        spec, key, frame, Q, est_true, n = simulate(case)
-    except Exception as e:
-        ctx.fail(f'{key}|exception|{type(e).__name__}', f'{type(e).__name__}: {e}'[:200])
-        return
+    # Most runs are converged long before the horizon their filter is granted (the horizon is sized for the slowest start).  A first
+    # attempt with one eighth of it is accepted when it already satisfies every clause (error at the end and over its last 10% below
+    # tau, not above the initial error); otherwise the full horizon is run and judged.  Same data: the short run is a prefix.
+    H_full = int(min(horizon(key, case['P'], float(case['dt']), math.radians(theta0), 'quick'), 30000))
+    attempts = [max(600, H_full//8), H_full] if H_full >= 4800 else [H_full]
+    for attempt, H in enumerate(attempts):
+        try:
+            spec, key, frame, Q, est_true, n = simulate(case, H=H)
+        except Exception as e:
+            ctx.fail(f'{key}|exception|{type(e).__name__}', f'{type(e).__name__}: {e}'[:200])
+            return
+        if attempt == len(attempts) - 1:
+            break
+        if Q.shape == (n, 4) and np.all(np.isfinite(Q)):
+            tail_ = list(range(int(0.9*n), n, max(1, n//400)))
+            e0_, eH_ = errors(spec, Q, est_true, frame, [0, n-1])
+            if eH_ <= tau and max(errors(spec, Q, est_true, frame, tail_)) <= tau and eH_ <= max(e0_, tau) and e0_ <= math.radians(175.0) + 1e-9:
+                ctx.label('converged_within_an_eighth_of_the_horizon')
+                break
     if Q.shape != (n, 4) or not np.all(np.isfinite(Q)):
         ctx.fail(f'{key}|invalid_output', f'shape {Q.shape}, finite {bool(np.all(np.isfinite(Q)))}')
         return
@@ -255,5 +269,5 @@ def selftest():
         raise HarnessError(f'filter table order changed: {keys}')
 
 
-SUBCHECKS = {'converge': Sub(_case, evaluate, quick=400, thorough=12000, budget_quick=100.0, budget_thorough=1500.0),
+SUBCHECKS = {'converge': Sub(_case, evaluate, quick=1000, thorough=30000, budget_quick=100.0, budget_thorough=1500.0),
              'fast': Sub(_case_fast, evaluate, quick=1600, thorough=40000, budget_quick=60.0, budget_thorough=900.0)}
